@@ -30,6 +30,10 @@ func init() { gens["c03"] = genC03 }
 
 // probe runs f under recover and a watchdog; it returns "" or a description of the crash / hang.
 func probe(what string, f func()) string {
+	if collectOps != nil {
+		*collectOps = append(*collectOps, namedOp{what, f})
+		return ""
+	}
 	done := make(chan string, 1)
 	go func() {
 		defer func() {
@@ -49,6 +53,15 @@ func probe(what string, f func()) string {
 		return what + ": timeout (no result within 20 s)"
 	}
 }
+
+// collectOps, when set, makes the use* functions hand their operations over instead of running them (the concurrent
+// stage runs them itself, several goroutines at a time)
+type namedOp struct {
+	what string
+	f    func()
+}
+
+var collectOps *[]namedOp
 
 // hung is set once a call did not return: its goroutine cannot be stopped and may keep allocating, so the
 // generator records the finding and ends the run at once
@@ -662,12 +675,21 @@ func concurrentUse(items []map[string]any) (steps int, bad []string) {
 	}
 	w.Flush()
 	f.Close()
-	ctx, cancel := context.WithTimeout(context.Background(), 120*time.Second)
+	ctx, cancel := context.WithTimeout(context.Background(), 300*time.Second)
 	defer cancel()
-	out, err := exec.CommandContext(ctx, os.Args[0], "concur", f.Name()).CombinedOutput()
+	bin := os.Args[0]
+	if b := os.Getenv("VH_RACE_BIN"); b != "" {
+		bin = b // built with -race: shared state touched without synchronisation is reported even when the accesses do not collide
+	}
+	cmd := exec.CommandContext(ctx, bin, "concur", f.Name())
+	cmd.Env = append(os.Environ(), "GORACE=halt_on_error=1")
+	out, err := cmd.CombinedOutput()
 	text := string(out)
 	if err != nil {
 		if i := strings.Index(text, "fatal error"); i >= 0 {
+			text = text[i:]
+		}
+		if i := strings.Index(text, "WARNING: DATA RACE"); i >= 0 {
 			text = text[i:]
 		}
 		if len(text) > 700 {
@@ -683,7 +705,8 @@ func concurrentUse(items []map[string]any) (steps int, bad []string) {
 	return r.Steps, r.Bad
 }
 
-// concurMain is the child: for every input, six goroutines decode their own copy and use their own value at once.
+// concurMain is the child: for every input six goroutines hold their own decoding of it; every read-only operation is
+// then run by all of them at the same moment, a few times over (start barrier per operation: the calls overlap).
 func concurMain(path string) {
 	log.SetOutput(io.Discard)
 	f, err := os.Open(path)
@@ -695,6 +718,7 @@ func concurMain(path string) {
 	total := 0
 	var mu sync.Mutex
 	var allBad []string
+	const G = 6
 	for sc.Scan() {
 		var it struct {
 			Entry string
@@ -707,37 +731,54 @@ func concurMain(path string) {
 		for i, x := range it.In {
 			in[i] = byte(x)
 		}
-		const G = 6
-		var start, done sync.WaitGroup
-		start.Add(1)
-		for g := 0; g < G; g++ {
-			done.Add(1)
-			go func() {
-				defer done.Done()
-				var bad []string
-				steps := 0
-				buf := append([]byte(nil), in...)
-				start.Wait()
-				switch it.Entry {
-				case "v4":
-					if p, err := dhcpv4.FromBytes(buf); err == nil {
-						useV4(p, &bad, &steps)
-					}
-				default:
-					if d, err := dhcpv6.FromBytes(buf); err == nil {
-						useV6(d, &bad, &steps)
-					}
+		ops := make([][]namedOp, G)
+		for g := 0; g < G; g++ { // every goroutine's own value and its own list of operations on it
+			buf := append([]byte(nil), in...)
+			var bad []string
+			steps := 0
+			collectOps = &ops[g]
+			switch it.Entry {
+			case "v4":
+				if p, err := dhcpv4.FromBytes(buf); err == nil {
+					useV4(p, &bad, &steps)
 				}
-				mu.Lock()
-				total += steps
-				if len(allBad) < 5 {
-					allBad = append(allBad, bad...)
+			default:
+				if d, err := dhcpv6.FromBytes(buf); err == nil {
+					useV6(d, &bad, &steps)
 				}
-				mu.Unlock()
-			}()
+			}
+			collectOps = nil
 		}
-		start.Done()
-		done.Wait()
+		for i := range ops[0] {
+			var start, done sync.WaitGroup
+			start.Add(1)
+			for g := 0; g < G; g++ {
+				if i >= len(ops[g]) {
+					continue
+				}
+				op := ops[g][i]
+				done.Add(1)
+				go func() {
+					defer done.Done()
+					defer func() {
+						if r := recover(); r != nil {
+							mu.Lock()
+							if len(allBad) < 5 {
+								allBad = append(allBad, fmt.Sprintf("%s: panic: %v", op.what, r))
+							}
+							mu.Unlock()
+						}
+					}()
+					start.Wait()
+					for k := 0; k < 4; k++ {
+						op.f()
+					}
+				}()
+			}
+			start.Done()
+			done.Wait()
+			total += G
+		}
 	}
 	b, _ := json.Marshal(map[string]any{"Steps": total, "Bad": allBad})
 	os.Stdout.WriteString("RESULT ")
